@@ -227,6 +227,14 @@ def run(chk, tier, seed, replay=None):
             cid = 's%d%s' % (n, 'abc'[variant])
             cases.append({'id': cid, 'world': dict(copy.deepcopy(w), id=cid), 'o': o,
                           'stdout_kind': sk})
+    # --buffer together with -D (post-mortem mode runs the tests through a loop of
+    # its own); only tests that give the debugger no reason to start
+    for n, kinds in enumerate([['pass'], ['pass', 'pass'], ['skip_deco', 'pass'], ['pass', 'skip_deco']] * 2):
+        w = make_world('d%d' % n, rng, kinds, two_layers=n % 2 == 1, redirects=False)
+        cid = 'd%da' % n
+        cases.append({'id': cid, 'world': dict(w, id=cid),
+                      'o': {'verbose': rng.choice([0, 1, 2]), 'buffer': True, 'pm': True},
+                      'stdout_kind': rng.choice(['merged', 'file'])})
     chk.sample({'world': cases[37]['world'], 'options': cases[37]['o'],
                 'streams': cases[37]['stdout_kind']})
     drift = run_cases(chk, cases, 'runs')
